@@ -12,6 +12,8 @@ Decides (static, on type-checked MIR of every autocomplete configuration):
                        a quote becomes the four characters quote-backslash-quote-quote, every other character itself; every Ok
                        path starts and ends by writing a quote; string cuts in complete_shell use byte offsets.
  T6 dispatch           check_complete: revision 0/1/7/8/9 -> test/simple/zsh/bash/fish.
+ T6b every arm answers  once the word being completed is in hand every arm of the dispatch returns Some(rendered output): no
+                       renderer is skipped because of something unrelated (e.g. a missing application name) - shared with C14.
  T7 stubs agree        revision constants printed by the dump_*_completer stubs agree with T6; the
                        --bpaf-complete-style-X strings select dump_X_completer.
  T8 line protocol      fish / elvish renderers (one candidate per line) cut a description at its first line break
@@ -68,6 +70,8 @@ def run(ctx):
         ctx.guard(t7, ctx, cfg, fs)
         ctx.guard(t8, ctx, cfg, fs, bodies)
         ctx.guard(t5_offsets, ctx, cfg, fs)
+        import c14, c08
+        ctx.guard(c08.keep_only, ctx, lambda: c14.no_late_none(ctx, cfg, fs), lambda o: True, 'T6.dispatch')
 
 def t5_offsets(ctx, cfg, fs):
     """the quoting wrapper and the renderers cut strings only at byte offsets (char_indices/len/find), never at a
